@@ -103,6 +103,22 @@ func liWorldGen(r *Run, rng *Rng, w *liWorld, steps int) {
 		w.exec(r, "q ler 0 "+hx(pool[1][:]))
 		w.exec(r, "q verifyrollup 0 "+hx(pool[1][:])+" "+hx(pool[2][:]))
 	}
+	if rng.Chance(25) {
+		// directed: the very FIRST block the syncer is given announces a root that does not match (the store is still empty when
+		// it halts); reorgs from block 0 and from the block itself remove nothing and must leave it halted
+		evs := liEvents(rng, w, bn, pool, true, false)
+		if strings.Contains(evs, "v;") && w.exec(r, fmt.Sprintf("blk %d %s", bn, evs)) == "err inconsistent" {
+			for _, b := range []uint64{0, bn} {
+				w.exec(r, fmt.Sprintf("reorg %d", b))
+				if w.exec(r, "q halted") != "1" {
+					r.Fail(fmt.Sprintf("[C14] a reorg from block %d on an empty store (it removed nothing) cleared the halted condition of the L1 info syncer", b), append([]string{"new"}, w.lines...))
+				}
+			}
+			w.checkHaltedQueries(r)
+			r.Count("branch:directed-halt-on-first-block")
+			w.exec(r, "restart")
+		}
+	}
 	for s := 0; s < steps; s++ {
 		halted := w.p.IsHalted()
 		if s == steps/2 && !halted {
